@@ -146,6 +146,12 @@ func (x *Ex) genFuncsMore(body *LeanFile) {
 		{"internal/webdoc", "TextDocument", "ApplyToModel"},
 		{"internal/webdoc", "Document", "CreateTextDocument"},
 	})
+	// the entry points around Apply: they only fetch / open / parse and delegate
+	x.bodyGroup(body, "entryPointBodies", []string{"C10", "C11", "C13"}, [][3]string{
+		{"", "", "ApplyForURL"},
+		{"", "", "ApplyForFile"},
+		{"", "", "ApplyForReader"},
+	})
 	// the rendering of Text elements and of the document: what Model/TextRender.lean models
 	x.bodyGroup(body, "textRenderBodies", []string{"C01", "C02", "C05", "C06", "C07", "C09"}, [][3]string{
 		{"internal/webdoc", "Text", "GenerateOutput"},
